@@ -58,25 +58,30 @@ CellDim(kind) == CASE kind = "point" -> 0 [] kind = "line" -> 1 [] kind \in {"tr
 \* x * k / d with x <= 1, k <= 2^15 : one short multiplication, one short division
 MulDiv(x, k, d) == FxDivSmall(FxMulSmall(x, k), d)
 
+\* TLC passes operator arguments lazily; a recursion that only threads an accumulator through builds a chain
+\* of nested thunks whose evaluation overflows the Java stack.  Looking at the accumulator in the guard of
+\* every level evaluates it there (Seen(x) is TRUE for every number in normal form).
+Seen(x) == x[NL] >= 0
+
 \* x * a! / ((s+1)(s+2)...(s+a))   by a steps  x := x * k / (s + k)   (each factor <= 1, so the
 \* absolute error grows by at most one unit of 2^-56 per step)
 RECURSIVE FactRatio(_, _, _, _)
-FactRatio(x, s, a, k) == IF k > a THEN x ELSE FactRatio(MulDiv(x, k, s + k), s, a, k + 1)
+FactRatio(x, s, a, k) == IF ~Seen(x) \/ k > a THEN x ELSE FactRatio(MulDiv(x, k, s + k), s, a, k + 1)
 
 \* x / ((s+1)(s+2)...(s+d))
 RECURSIVE DivRun(_, _, _, _)
-DivRun(x, s, d, k) == IF k > d THEN x ELSE DivRun(FxDivSmall(x, s + k), s, d, k + 1)
+DivRun(x, s, d, k) == IF ~Seen(x) \/ k > d THEN x ELSE DivRun(FxDivSmall(x, s + k), s, d, k + 1)
 
 \* integral of x^alpha over the unit simplex of dimension Len(alpha):  alpha! / (|alpha| + d)!
 RECURSIVE SimplexRun(_, _, _, _)
 SimplexRun(x, s, alpha, i) ==
-  IF i > Len(alpha) THEN DivRun(x, s, Len(alpha), 1)
+  IF ~Seen(x) \/ i > Len(alpha) THEN DivRun(x, s, Len(alpha), 1)
   ELSE SimplexRun(FactRatio(x, s, alpha[i], 1), s + alpha[i], alpha, i + 1)
 SimplexMoment(alpha) == SimplexRun(FxInt(1), 0, alpha, 1)
 
 \* integral over the unit box: product of 1/(a_i + 1)
 RECURSIVE BoxRun(_, _, _)
-BoxRun(x, alpha, i) == IF i > Len(alpha) THEN x ELSE BoxRun(FxDivSmall(x, alpha[i] + 1), alpha, i + 1)
+BoxRun(x, alpha, i) == IF ~Seen(x) \/ i > Len(alpha) THEN x ELSE BoxRun(FxDivSmall(x, alpha[i] + 1), alpha, i + 1)
 BoxMoment(alpha) == BoxRun(FxInt(1), alpha, 1)
 
 RefMoment(kind, alpha) ==
